@@ -144,3 +144,22 @@ package query
 //@   modifies *
 //@   ensures_recovered[panic_completes_with_error] p.sm.completed.val && p.sm.cbCount <= 1
 //@ end
+
+//@ # ---- leaf side of a metadata request (C19: one response per request): once the pipeline has been started the response is the
+//@ # completion callback's job - the function itself must report success to the task handler, which answers every error it
+//@ # gets back with an error response of its own (a second response for the same request id). Thin contract. ------------
+//@ func github.com/lindb/lindb/sql/stmt.MetricMetadata.UnmarshalJSON
+//@   assume
+//@   note decoding the request payload fills the statement object only
+//@   modifies nothing
+//@ end
+//@ func github.com/lindb/lindb/flow.TaskContext.Release
+//@   assume
+//@   modifies nothing
+//@ end
+//@ func leafTaskProcessor.processMetadataSuggest
+//@   prop C19
+//@   focus once_the_pipeline_is_started_the_callback_owns_the_response
+//@   modifies *
+//@   ensures[once_the_pipeline_is_started_the_callback_owns_the_response] calls(newExecutePipelineFn) != old(calls(newExecutePipelineFn)) ==> result == nil
+//@ end
